@@ -6,10 +6,13 @@
     Status: PROVED for Euler forward (T7, C01_EF_converges_general, and in two dimensions
     C01_EF_converges_general_2d: every field Lipschitz in space, every twice differentiable solution, explicit
     constant) and for RK2 (T8, C01_RK2_converges_general: every time-dependent scalar field with bounded partial
-    derivatives up to order two; the local truncation bound is derived).  For RK4 the stability half (Lipschitz
-    increment function with explicit constant, also in 2-D) and the Lax-type convergence theorem are proved, and
-    order 4 follows from ONE remaining hypothesis, the local truncation bound C h^5 of the scheme along the exact
-    solution (C01_RK_converges_general_partial).  That bound needs Butcher's theorem (order
+    derivatives up to order two; the local truncation bound is derived) and for RK4 on autonomous scalar fields
+    with four bounded derivatives and on position-independent fields (T9, C01_RK4_converges_autonomous,
+    C01_RK4_quadrature_converges; local truncation bound derived).  For RK4 on general TIME-DEPENDENT
+    position-dependent fields, and for RK2/RK4 in two dimensions, the stability half and the Lax-type theorem
+    are proved and the order follows from ONE remaining hypothesis, the local truncation bound of the scheme
+    along the exact solution (C01_RK_converges_general_partial, C01_general_convergence_2d).  In general that
+    bound needs Butcher's theorem (order
     conditions => local error O(h^(p+1)) for arbitrary C^(p+1) fields), which is not available in the installed
     libraries; it is proved here for linear fields and for pure time quadrature.
     What is proved: T1 the step IS the Runge-Kutta step of the scheme's Butcher tableau with the stage
@@ -350,3 +353,53 @@ Theorem C01_model_step_is_real_step_2d : forall (vel : Q -> Q -> Q -> Q * Q) (dt
   padd (Q2R x, Q2R y) (pscale2 (Q2R dtdx) (Q2R dtdy) (Phi_RK4_2d f (Q2R dtdx) (Q2R dtdy) ht tk (Q2R x, Q2R y))).
 Proof. exact model_RK4_step2. Qed.
 Print Assumptions C01_model_step_is_real_step_2d.
+
+(** * T9 — RK4 COMPLETE for smooth autonomous fields and for pure quadrature (Proofs/RK4TruncationProofs.v) *)
+From Ladim Require Import Proofs.RK4TruncationProofs.
+
+(** classical RK4, COMPLETE (scalar, autonomous field g whose derivatives up to the fourth are globally bounded
+    by B0..B4): for every solution y of y' = g(y) on [t0, t0+T], n steps of size h = T/n end within
+    exp(T * Lip_RK4 h B1) * T * C_RK4a(B0..B4) * h^4 of y(t0+T).  The local truncation bound C h^5 is DERIVED:
+    y is expanded to fourth order with Lagrange remainder (its derivatives are the elementary differentials of g),
+    every stage is expanded in its increment, and ONE polynomial identity — where the order conditions of the
+    tableau enter — cancels the terms through h^4.  No hypothesis on the scheme remains.
+    Non-vacuity: [C01_RK4_general_ex], g = sin, y = 2 atan(exp t). *)
+Theorem C01_RK4_converges_autonomous : forall (g g1 g2 g3 g4 : R -> R) (B0 B1 B2 B3 B4 : R),
+  (forall x, is_derive g x (g1 x)) -> (forall x, is_derive g1 x (g2 x)) ->
+  (forall x, is_derive g2 x (g3 x)) -> (forall x, is_derive g3 x (g4 x)) ->
+  (forall x : R, Rabs (g x) <= B0)%R -> (forall x : R, Rabs (g1 x) <= B1)%R -> (forall x : R, Rabs (g2 x) <= B2)%R ->
+  (forall x : R, Rabs (g3 x) <= B3)%R -> (forall x : R, Rabs (g4 x) <= B4)%R ->
+  forall (y : R -> R) (h t0 T : R) (n : nat), (0 < h)%R -> (INR n * h)%R = T ->
+  (forall t : R, (t0 <= t <= t0 + T)%R -> is_derive y t (g (y t))) ->
+  (Rabs (one_step_iter (Phi_RK4 (fun _ x : R => g x) h) h t0 n (y t0) - y (t0 + T)) <=
+   exp (T * Lip_RK4 h B1) * T * C_RK4a B0 B1 B2 B3 B4 * h ^ 4)%R.
+Proof. exact RK4_autonomous_converges_order4. Qed.
+Print Assumptions C01_RK4_converges_autonomous.
+Example C01_RK4_general_ex : forall (n : nat) (h T : R), (0 < h)%R -> (INR n * h)%R = T ->
+  (Rabs (one_step_iter (Phi_RK4 (fun _ x : R => sin x) h) h 0 n (PI / 2) - 2 * atan (exp T)) <=
+   exp (T * Lip_RK4 h 1) * T * (129 / 320) * h ^ 4)%R.
+Proof. exact RK4_sin_example. Qed.
+
+(** ... at the level of the rational MODEL *)
+Theorem C01_model_RK4_converges : forall (g : R -> R) (B0 B1 B2 B3 B4 : R),
+  (forall (k : nat) (x : R), (k <= 4)%nat -> ex_derive_n g k x) ->
+  (forall x : R, Rabs (g x) <= B0)%R -> (forall x : R, Rabs (Derive_n g 1 x) <= B1)%R ->
+  (forall x : R, Rabs (Derive_n g 2 x) <= B2)%R -> (forall x : R, Rabs (Derive_n g 3 x) <= B3)%R ->
+  (forall x : R, Rabs (Derive_n g 4 x) <= B4)%R ->
+  forall (vel : Q -> Q -> Q -> Q * Q) (dtdx dtdy x0 y0 : Q) (y : R -> R) (t0 T : R) (n : nat),
+  (0 < Q2R dtdx)%R -> (INR n * Q2R dtdx)%R = T ->
+  (forall s x y' : Q, Q2R (fst (vel s x y')) = g (Q2R x)) -> Q2R x0 = y t0 ->
+  (forall t : R, (t0 <= t <= t0 + T)%R -> is_derive y t (g (y t))) ->
+  (Rabs (Q2R (fst (rk_iter vel dtdx dtdy tab_RK4 n x0 y0)) - y (t0 + T)) <=
+   exp (T * Lip_RK4 (Q2R dtdx) B1) * T * C_RK4a B0 B1 B2 B3 B4 * Q2R dtdx ^ 4)%R.
+Proof. exact model_RK4_autonomous_converges_order4. Qed.
+Print Assumptions C01_model_RK4_converges.
+
+(** RK4 on fields that do not depend on the position (Simpson's rule), COMPLETE: fourth order with constant 49/2880 B4 *)
+Theorem C01_RK4_quadrature_converges : forall (q : R -> R) (B4 : R),
+  (forall (k : nat) (x : R), (k <= 4)%nat -> ex_derive_n q k x) -> (forall x : R, Rabs (Derive_n q 4 x) <= B4)%R ->
+  forall (y : R -> R) (h t0 T : R) (n : nat), (0 < h)%R -> (INR n * h)%R = T ->
+  (forall t : R, (t0 <= t <= t0 + T)%R -> is_derive y t (q t)) ->
+  (Rabs (one_step_iter (Phi_RK4 (fun t _ : R => q t) h) h t0 n (y t0) - y (t0 + T)) <= T * C_Simpson B4 * h ^ 4)%R.
+Proof. exact RK4_quadrature_converges_order4. Qed.
+Print Assumptions C01_RK4_quadrature_converges.
